@@ -7,6 +7,7 @@
 #include <thread>
 #include <cppcms/session_pool.h>
 #include <cppcms/service.h>
+#include <cppcms/capi/session.h>
 #include <cppcms/session_storage.h>
 #include <cppcms/session_api.h>
 #include <cppcms/http_cookie.h>
@@ -117,6 +118,9 @@ struct E5 : Engine {
 		p["p_file_short"] = r.below(4) == 0 ? (int)r.below(300) : 0; p["p_file_eintr"] = r.below(4) == 0 ? (int)r.below(100) : 0;
 		bool net_faults = p.gets("storage") == "network" && r.below(2);   // resets of the storage connection, at most one per request (sequential plans only)
 		int nb = 1 + r.below(3); p["browsers"] = nb; p["conc"] = (int)(nb > 1 && r.below(3) == 0); p["reuse"] = (int)(!p.geti("conc") && r.below(4) == 0);   /* reuse: one long-lived session_interface re-targeted to each request with set_cookie_adapter_and_reload() */ p["strategy"] = (int)r.below(3); p["pct_depth"] = 1 + (int)r.below(3); p["pct_len"] = 50 + (int)r.below(2000);
+		// capi: the sessions are driven through the C API (cppcms/capi/session.h), the way other languages use them
+		if(r.below(10) == 0){ p["capi"] = 1; p["location"] = r.below(2) ? "client" : "server"; p["timeout"] = 1000 + (int)r.below(100000); J cr = J::arr(); int nr = 2 + r.below(7);
+			for(int i=0;i<nr;i++){ J q = J::arr(); int no = r.below(6); for(int k=0;k<no;k++){ J o = J::obj(); static const char *ops[] = {"set","set","get","len","bin","is_set","erase","expose","hide","clear","reset","keys","len","get"}; static const char *keys[] = {"a","b","user","never"}; o["op"] = ops[r.below(14)]; o["k"] = keys[r.below(4)]; o["len"] = (int)r.below(40); q.push(o); } cr.push(q); } p["creqs"] = cr; }
 		// twin: several concurrent requests of ONE browser (tabs / parallel asynchronous calls presenting the same session cookie) plus gc, all scheduled threads
 		if(r.below(8) == 0){ p["twin"] = 1; p["location"] = "server"; static const char *ts[] = {"files","files","files","memory","network"}; p["storage"] = ts[r.below(5)]; p["flock"] = (int)r.below(2); p["tabs"] = 2 + (int)r.below(2); p["timeout"] = 1000 + (int)r.below(100000); if(r.below(4) == 0){ p["procs"] = 2; p["storage"] = "files"; }   /* procs 2: two worker processes (two cppcms::service objects whose session pools configure the file storage themselves, session.server.shared at its default) share the session directory */
 			J tr = J::arr(); int nt = 2 + r.below(6); for(int i=0;i<nt;i++){ J q = J::obj(); q["tab"] = (int)r.below(3); q["len"] = (int)(r.below(3) == 0 ? r.below(3000) : r.below(40)); q["ro"] = (int)(r.below(4) == 0); tr.push(q); } p["treqs"] = tr; p["gcs"] = (int)r.below(3); }
@@ -275,6 +279,49 @@ struct E5 : Engine {
 			cppcms::json::value k = settings(plan,"client"); k["session"]["client"]["encryptor"] = "hmac"; k["session"]["client"]["key"] = hexkey(2,8); threw = false; try { cppcms::session_pool p(k); p.init(); Jar j; session_interface s(p,j); s.load(); s.set("x","y"); s.save(); } catch(std::exception const &){ threw = true; } if(!threw) res.fail("weak-config-accepted","an 8-byte HMAC key was accepted"); }
 	}
 	static std::string b64(const std::string &in){ static const char *al = "ABCDEFGHIJKLMNOPQRSTUVWXYZabcdefghijklmnopqrstuvwxyz0123456789-_"; std::string o; uint32_t acc = 0; int bits = 0; for(unsigned char c:in){ acc = (acc << 8) | c; bits += 8; while(bits >= 6){ bits -= 6; o += al[(acc >> bits) & 63]; } } if(bits) o += al[(acc << (6-bits)) & 63]; return o; }
+
+	// ============================================================ C06 through the C API
+	// One browser, sequential requests, no deadline in reach: what a request finds (key set, values, exposed flags) is exactly what the previous one left,
+	// asking for something - also for a key that was never stored - changes nothing, the session cookie is there exactly while the session holds data.
+	void run_capi(const J &plan,RunResult &res,std::map<std::string,int64_t> &cnt){
+		std::string location = plan.gets("location") == "server" ? "server" : "client"; cnt["capi_runs"]++;
+		cppcms::json::value v = settings(plan,location); v["session"]["expire"] = "renew"; if(location == "server"){ v["session"]["server"]["storage"] = "files"; v["session"]["server"]["dir"] = "/simfs/capi-sessions"; simk::fs_mkdir("/simfs/capi-sessions"); }
+		std::ostringstream js; v.save(js,cppcms::json::compact);
+		struct Pool { cppcms_capi_session_pool *p; Pool() : p(cppcms_capi_session_pool_new()) {} ~Pool(){ cppcms_capi_session_pool_delete(p); } } pool;
+		if(!pool.p || cppcms_capi_session_pool_init_from_json(pool.p,js.str().c_str()) != 0){ res.fail("capi-error",std::string("pool init failed: ") + (pool.p ? cppcms_capi_error_message(pool.p) : "no pool")); return; }
+		Jar jar; struct MV { std::string value; bool exposed = false; bool operator==(const MV &o) const { return value == o.value && exposed == o.exposed; } }; std::map<std::string,MV> model;
+		const J &reqs = plan.get("creqs");
+		for(size_t ri=0;ri<reqs.size() && ri<12 && res.ok;ri++){ std::string where = "capi request#" + std::to_string(ri); cnt["requests"]++; cnt["capi_requests"]++;
+			struct Sess { cppcms_capi_session *s; Sess() : s(cppcms_capi_session_new()) {} ~Sess(){ cppcms_capi_session_delete(s); } } ss; cppcms_capi_session *s = ss.s;
+			auto err = [&](const char *what){ if(cppcms_capi_error(s)){ res.fail("capi-error",where + ": " + what + ": " + cppcms_capi_error_message(s)); return true; } return false; };
+			jar.begin_request(); cppcms_capi_session_init(s,pool.p); if(err("init")) break;
+			std::string cname = cppcms_capi_session_get_session_cookie_name(s); for(auto &kv:jar.request_cookies){ if(kv.first == cname) cppcms_capi_session_set_session_cookie(s,kv.second.c_str()); else cppcms_capi_session_add_cookie_name(s,kv.first.c_str()); }
+			cppcms_capi_session_load(s); if(err("load")) break;
+			auto view = [&]{ std::map<std::string,MV> got; for(const char *k = cppcms_capi_session_get_first_key(s);k;k = cppcms_capi_session_get_next_key(s)){ MV m; const char *val = cppcms_capi_session_get(s,k); m.value = val ? val : ""; m.exposed = cppcms_capi_session_get_exposed(s,k) == 1; got[k] = m; } return got; };
+			{ std::map<std::string,MV> got = view(); if(err("reading the session")) break; if(!(got == model)){ std::string d; for(auto &kv:got) if(!model.count(kv.first)) d += " +" + kv.first; for(auto &kv:model) if(!got.count(kv.first)) d += " -" + kv.first; else if(!(got[kv.first] == kv.second)) d += " ~" + kv.first; res.fail("session-data-mismatch",where + ": the session found by this request differs from what the previous request left:" + d); break; } if(!model.empty()) cnt["loads_live"]++; }
+			const J &ops = reqs.a[ri];
+			for(size_t k=0;k<ops.size() && k<8 && res.ok;k++){ const J &o = ops.a[k]; std::string op = o.gets("op"), key = o.gets("k","a"); if(key.empty()) key = "a";
+				if(op == "set"){ std::string val = "v" + std::to_string(ri) + "." + std::to_string(k) + std::string((size_t)std::max<int64_t>(0,std::min<int64_t>(o.geti("len"),200)),'x'); cppcms_capi_session_set(s,key.c_str(),val.c_str()); model[key].value = val; }
+				else if(op == "get"){ const char *g = cppcms_capi_session_get(s,key.c_str()); if(model.count(key) ? (!g || model[key].value != g) : (g && *g)){ res.fail("session-data-mismatch",where + ": get(" + key + ") returned something else than what is stored"); break; } }
+				else if(op == "len"){ int n = cppcms_capi_session_get_binary_len(s,key.c_str()); if(n != (int)(model.count(key) ? model[key].value.size() : 0)){ res.fail("session-data-mismatch",where + ": get_binary_len(" + key + ") = " + std::to_string(n)); break; } cnt["capi_reads_of_missing_keys"] += !model.count(key); }
+				else if(op == "bin"){ char buf[512]; int n = cppcms_capi_session_get_binary(s,key.c_str(),buf,sizeof(buf)); if(n != (int)(model.count(key) ? model[key].value.size() : 0) || (n > 0 && model[key].value != std::string(buf,(size_t)n))){ res.fail("session-data-mismatch",where + ": get_binary(" + key + ") differs from what is stored"); break; } cnt["capi_reads_of_missing_keys"] += !model.count(key); }
+				else if(op == "is_set"){ if((cppcms_capi_session_is_set(s,key.c_str()) == 1) != (model.count(key) > 0)){ res.fail("session-data-mismatch",where + ": is_set(" + key + ") disagrees with the history"); break; } }
+				else if(op == "erase"){ cppcms_capi_session_erase(s,key.c_str()); model.erase(key); }
+				else if(op == "expose" || op == "hide"){ if(model.count(key)){ cppcms_capi_session_set_exposed(s,key.c_str(),op == "expose"); model[key].exposed = op == "expose"; } }
+				else if(op == "clear"){ cppcms_capi_session_clear(s); model.clear(); }
+				else if(op == "reset"){ cppcms_capi_session_reset_session(s); }
+				else if(op == "keys"){ std::map<std::string,MV> got = view(); if(!(got == model)){ res.fail("session-data-mismatch",where + ": the key set / values inside the request differ from the operations performed so far"); break; } }
+				if(err(op.c_str())) break; }
+			if(!res.ok) break;
+			// looking at the session - also asking for keys that were never stored - must not have changed it
+			{ std::map<std::string,MV> got = view(); if(!(got == model)){ std::string d; for(auto &kv:got) if(!model.count(kv.first)) d += " +" + kv.first; res.fail("session-data-mismatch",where + ": at the end of the request the session holds keys the request never stored:" + d); break; } }
+			cppcms_capi_session_save(s); if(err("save")) break;
+			for(cppcms_capi_cookie *c = cppcms_capi_session_cookie_first(s);c;c = cppcms_capi_session_cookie_next(s)){ std::string name = cppcms_capi_cookie_name(c), value = cppcms_capi_cookie_value(c); bool del = (cppcms_capi_cookie_max_age_defined(c) == 1 && cppcms_capi_cookie_max_age(c) == 0) || (cppcms_capi_cookie_max_age_defined(c) != 1 && cppcms_capi_cookie_expires_defined(c) == 1 && cppcms_capi_cookie_expires(c) < Jar::now());
+				if(del || value.empty()) jar.jar.erase(name); else { Jar::C e; e.value = value; e.expires = cppcms_capi_cookie_max_age_defined(c) == 1 ? Jar::now() + (int64_t)cppcms_capi_cookie_max_age(c) : cppcms_capi_cookie_expires_defined(c) == 1 ? (int64_t)cppcms_capi_cookie_expires(c) : -1; jar.jar[name] = e; } cppcms_capi_cookie_delete(c); }
+			if(model.empty() == (jar.jar.count(cname) > 0)){ res.fail(model.empty() ? "session-cookie-for-empty-session" : "session-cookie-missing",where + ": the session " + (model.empty() ? "holds nothing but the browser was given a session cookie" : "holds data but the browser has no session cookie")); break; }
+			for(auto &kv:model){ std::string cn = cname + "_" + kv.first; bool there = jar.jar.count(cn) > 0; if(kv.second.exposed && !kv.second.value.empty() && (!there || wire::urldecode(jar.jar[cn].value) != kv.second.value)){ res.fail("exposed-cookie-mismatch",where + ": exposed key '" + kv.first + "' is " + (there ? "stale" : "missing") + " in the browser's cookies"); break; } if(!kv.second.exposed && there){ res.fail("exposed-cookie-mismatch",where + ": key '" + kv.first + "' is not exposed but has a cookie"); break; } }
+			simk::advance_us(1000000); cnt["ticks"]++; }
+	}
 
 	// ============================================================ C06, concurrent requests of one browser
 	// Tabs present the same session cookie at the same time. The storage serialises access per session, so the session behaves as a regular register: a request
@@ -489,7 +536,7 @@ struct E5 : Engine {
 		sp.p_file_short = (unsigned)std::max<int64_t>(0,std::min<int64_t>(plan.geti("p_file_short"),900)); sp.p_file_eintr = (unsigned)std::max<int64_t>(0,std::min<int64_t>(plan.geti("p_file_eintr"),500)); sp.file_short_min = 2;
 		{ const J &uf = plan.get("urandom_fail"); for(size_t k=0;k<uf.size() && k<8;k++) sp.urandom_fail_at.push_back((uint32_t)std::max<int64_t>(0,std::min<int64_t>(uf.a[k].as_int(),100000))); }
 		simk::begin(sp);
-		try { if(plan.gets("prop") == "C05") run_c05(plan,res,cnt); else run_c06(plan,res,cnt); }
+		try { if(plan.gets("prop") == "C05") run_c05(plan,res,cnt); else if(plan.geti("capi")) run_capi(plan,res,cnt); else run_c06(plan,res,cnt); }
 		catch(std::exception const &e){ res.fail("harness-or-library-exception",std::string("unexpected exception: ") + e.what()); }
 		res.hash = simk::trace_hash() ^ runner::fnv(std::to_string(cnt["loads_accepted"]) + ":" + std::to_string(cnt["loads_live"]) + ":" + std::to_string(cnt["loads_empty"]));
 		res.counters["file_short_io"] = (long long)simk::stats().file_short; res.counters["file_eintr"] = (long long)simk::stats().file_eintr; res.counters["clock_jumps"] = (long long)simk::stats().clock_jumps; res.counters["thread_switches"] = (long long)simk::stats().switches; res.counters["mutex_contended"] = (long long)simk::stats().mutex_contended;
